@@ -264,6 +264,92 @@ def decimal_delta_stream(ctx):
             ctx.oracle_failure(info, fails, {})
 
 
+def narrow_argument_stream(ctx):
+    """prune() called with numpy scalars narrower than a double (3 * image.std() of a float32 image is one): the recorded
+    parameters, read as doubles, never decrease, and a value that is not recorded (less strict) is announced."""
+    import warnings
+    from astrodendro import Dendrogram
+    rng = ctx.rng('c07-narrow-args')
+    for it in range(120 if ctx.quick else 1200):
+        vals = [rng.randint(1, 60) / 10.0 for _ in range(rng.randint(5, 12))]
+        arr = np.array(vals)
+        d0 = rng.choice([0.7, 0.1, 1.3, 0.3, 2.1])
+        n0 = rng.choice([0, 2, 2.1, 1.3])
+        info = {'stream': 'narrow prune arguments', 'data': vals, 'compute': {'min_delta': d0, 'min_npix': n0}, 'calls': []}
+        fails = []
+        try:
+            d = Dendrogram.compute(arr, min_value=0, min_delta=d0, min_npix=n0)
+            for k in range(rng.randint(1, 3)):
+                ft = rng.choice([np.float32, np.float16, np.float64])
+                kw = {}
+                if rng.random() < 0.7:
+                    kw['min_delta'] = ft(rng.choice([d0, d0, 0.7, 1.3, 2.1, 0.1]))
+                    if ft is np.float64 and rng.random() < 0.5:
+                        # a threshold recomputed by the caller: the recorded one but for round-off
+                        cur = float(d.params['min_delta'])
+                        kw['min_delta'] = rng.choice([cur * (1 - 1e-9), float(np.nextafter(cur, 0)), cur * (1 - 3e-6), cur - 1e-10])
+                if rng.random() < 0.5:
+                    kw['min_npix'] = ft(rng.choice([n0 or 2.1, 2.1, 1.3, 3]))
+                before = {k_: float(d.params[k_]) for k_ in ('min_delta', 'min_npix')}
+                info['calls'].append({k_: '%s(%r)' % (type(v_).__name__, float(v_)) for k_, v_ in kw.items()})
+                with warnings.catch_warnings(record=True) as w:
+                    warnings.simplefilter('always')
+                    d.prune(**kw)
+                after = {k_: float(d.params[k_]) for k_ in ('min_delta', 'min_npix')}
+                for k_ in before:
+                    if after[k_] < before[k_]:
+                        fails.append('recorded %s went down from %r to %r after prune(%s)' % (k_, before[k_], after[k_], info['calls'][-1]))
+                    if k_ in kw and float(kw[k_]) != 0 and float(kw[k_]) < before[k_] and not any(k_ in str(x.message) for x in w):
+                        fails.append('prune(%s) with a less strict %s than the recorded %r gave no warning' % (info['calls'][-1], k_, before[k_]))
+                if fails:
+                    break
+        except Exception as e:
+            fails.append('raised %r' % (e,))
+        ctx.count('narrow_argument_cases')
+        ctx.case_done(None, ('narrow-args', it))
+        if fails:
+            ctx.oracle_failure(info, fails, {})
+
+
+def decimal_sum_stream(ctx):
+    """min_sum on values with one decimal: their floating-point sum depends on the order of addition, and a structure
+    stores its pixels in another order once it has been merged or indexed.  After prune(min_sum(T)) the criterion itself
+    accepts every leaf, and the same prune again changes nothing."""
+    from astrodendro import Dendrogram, pruning
+    rng = ctx.rng('c07-decimal-sum')
+    for it in range(250 if ctx.quick else 2500):
+        shape = rng.choice([(rng.randint(3, 10),), (3, 4), (2, 5)])
+        n = int(np.prod(shape))
+        vals = [rng.randint(1, 9) / 10.0 for _ in range(n)]
+        arr = np.array(vals).reshape(shape)
+        T = rng.randint(8, 30) / 10.0
+        info = {'stream': 'decimal sums', 'shape': list(shape), 'data': vals, 'min_sum': T}
+        fails = []
+        try:
+            d = Dendrogram.compute(arr, min_value=0.0)
+            if len(d) and rng.random() < 0.7:
+                # the decimal a user would read off for one of the structures
+                pick = rng.choice(list(d))
+                T = round(float(np.sum(pick.values(subtree=rng.random() < 0.5))), 1)
+                info['min_sum'] = T
+            crit = pruning.min_sum(T)
+            d.prune(is_independent=crit)
+            first = impl.impl_hierarchy(d, shape)
+            bad = [int(s.idx) for s in d.leaves if not crit(s)]
+            if bad:
+                fails.append('after prune(is_independent=min_sum(%r)) the criterion rejects the leaves %s of the returned dendrogram' % (T, bad))
+            d.prune(is_independent=pruning.min_sum(T))
+            second = impl.impl_hierarchy(d, shape)
+            if first != second:
+                fails.append('pruning again with min_sum(%r) changes the tree: %s -> %s' % (T, first, second))
+        except Exception as e:
+            fails.append('raised %r' % (e,))
+        ctx.count('decimal_sum_cases')
+        ctx.case_done(None, ('decimal-sum', tuple(vals), shape, T))
+        if fails:
+            ctx.oracle_failure(info, fails, {})
+
+
 def float32_sum_stream(ctx):
     """min_sum on single-precision data: one pixel of 2**24 and a few small ones, the threshold next to their exact sum.
     After prune(is_independent=min_sum(T)) every leaf must really sum to at least T, and the result must be what
@@ -327,6 +413,8 @@ def trunk_order_stream(ctx):
 
 def explore(ctx):
     trunk_order_stream(ctx)
+    decimal_sum_stream(ctx)
+    narrow_argument_stream(ctx)
     decimal_delta_stream(ctx)
     float32_sum_stream(ctx)
     junction_stream(ctx)
